@@ -276,7 +276,7 @@ def simulate(module, cfg, workdir, *, num, depth, seed=0, timeout=600, **kw):
     return res, behs
 
 
-def graph_walks(nodes, edges, init, *, rng, max_walks, max_len, cover_edges=True):
+def graph_walks(nodes, edges, init, *, rng, max_walks, max_len, cover_edges=True, random_walks=None):
     """Paths through a state graph from an initial state. First enough walks to cover every edge
     (greedy, via BFS to the nearest uncovered edge), then random walks. Each walk is a list of node ids."""
     succ = {}
@@ -305,23 +305,62 @@ def graph_walks(nodes, edges, init, *, rng, max_walks, max_len, cover_edges=True
                 n = parent[n]
             return p[::-1]
         uncovered = set((s, d) for s, d, _ in edges if s in parent)
+        unc_from = {}
+        for s_, d_ in uncovered:
+            unc_from.setdefault(s_, set()).add(d_)
+
+        def take(a, b):
+            if (a, b) in uncovered:
+                uncovered.discard((a, b))
+                unc_from[a].discard(b)
+                if not unc_from[a]:
+                    del unc_from[a]
+
+        def path_to_uncovered(start, budget):
+            """Shortest path (list of nodes after `start`) to a node with an uncovered out-edge."""
+            if start in unc_from:
+                return []
+            seen = {start: None}
+            dq2 = deque([(start, 0)])
+            while dq2:
+                u, dist = dq2.popleft()
+                if dist >= budget:
+                    continue
+                for v in succ.get(u, ()):
+                    if v not in seen:
+                        seen[v] = u
+                        if v in unc_from:
+                            p = [v]
+                            while seen[p[-1]] is not None and seen[p[-1]] != start:
+                                p.append(seen[p[-1]])
+                            return p[::-1]
+                        dq2.append((v, dist + 1))
+            return None
+
         while uncovered and len(walks) < max_walks:
             s, d = next(iter(uncovered))
             w = prefix(s) + [d]
             for a, b in zip(w, w[1:]):
-                uncovered.discard((a, b))
-            # extend greedily through uncovered edges
+                take(a, b)
             cur = d
             while len(w) < max_len:
-                nxt = [v for v in succ.get(cur, ()) if (cur, v) in uncovered]
-                if not nxt:
+                nxt = unc_from.get(cur)
+                if nxt:
+                    v = next(iter(nxt))
+                    take(cur, v)
+                    w.append(v)
+                    cur = v
+                    continue
+                p = path_to_uncovered(cur, max_len - len(w) - 1)
+                if not p:
                     break
-                v = nxt[0]
-                uncovered.discard((cur, v))
-                w.append(v)
-                cur = v
+                for v in p:
+                    take(cur, v)
+                    w.append(v)
+                    cur = v
             walks.append(w)
-    while len(walks) < max_walks and init:
+    target = max_walks if random_walks is None else min(max_walks, len(walks) + random_walks)
+    while len(walks) < target and init:
         cur = rng.choice(init)
         w = [cur]
         while len(w) < max_len and succ.get(cur):
